@@ -1,4 +1,5 @@
 import N2k.Lemmas.HeartbeatRun
+import N2k.Model.GroupFunction
 /-!
 # C12 — Heartbeats are sent on schedule with a correct interval field and sequence
 
@@ -209,6 +210,90 @@ theorem C12_clip_values (cur : Nat) :
 theorem C12_clip_group_function (cur x : Nat) (h1 : 1000 ≤ x) (h2 : x ≤ 60000) :
     clipInterval (resolveInterval cur x) = x :=
   (C12_clip_values cur).2.2.1 x h1 (by omega)
+
+/-- **Group-function request (PGN 126208 for 126993), every message.** Whatever bytes arrive, the handler of
+`Model/GroupFunction.lean` (`req126993`, transcribing `tN2kGroupFunctionHandlerForPGN126993::HandleRequest`) calls
+`SetHeartbeatIntervalAndOffset(interval, offset, iDev)` only with an interval that is "no change", "restore default"
+or within 1000 … 60000 ms — never 0 ("turn off" is refused), never below 1 s or above 60 s — and with an offset that is
+"keep" or at most 60000 ms. Hence (`C12_clip`) a request can never switch the heartbeat off: a device whose stored
+period is non-zero keeps a non-zero period, and a period that was within 1000 … 60000 ms stays within it. -/
+theorem C12_clip_group_function_request (d : Dev) (m : Msg) (iv off : Nat)
+    (h : GF.req126993 d m = .serveHeartbeat iv off) :
+    (iv = 0xffffffff ∨ iv = 0xfffffffe ∨ (1000 ≤ iv ∧ iv ≤ 60000)) ∧ (off = 0xffffffff ∨ off ≤ 60000) ∧
+    (∀ cur, cur ≠ 0 → clipInterval (resolveInterval cur iv) ≠ 0) ∧
+    (∀ cur, 1000 ≤ cur → cur ≤ 60000 →
+      1000 ≤ clipInterval (resolveInterval cur iv) ∧ clipInterval (resolveInterval cur iv) ≤ 60000) := by
+  have hiv : (iv = 0xffffffff ∨ iv = 0xfffffffe ∨ (1000 ≤ iv ∧ iv ≤ 60000)) ∧ (off = 0xffffffff ∨ off ≤ 60000) := by
+    unfold GF.req126993 at h
+    generalize GF.reqParams m = rp at h
+    by_cases hp : rp.2.2 = 0
+    · simp only [if_pos hp] at h
+      by_cases hk : rp.1 = 0xffffffff ∧ rp.2.1 = 0xffff
+      · simp only [if_pos hk] at h
+        unfold GF.baseRequest at h
+        simp only at h
+        split at h <;> simp at h
+      · simp only [if_neg hk] at h
+        by_cases h0 : rp.1 = 0
+        · simp only [if_pos h0] at h
+          simp at h
+          split at h <;> simp at h
+        · simp only [if_neg h0] at h
+          by_cases hpec : GF.tpErr rp.1 rp.2.1 true 60000 1000 true 6000 = 0
+          · simp only [if_pos hpec] at h
+            simp only [GF.Act.serveHeartbeat.injEq] at h
+            obtain ⟨h1, h2⟩ := h
+            unfold GF.tpErr at hpec
+            split at hpec
+            · rename_i hc
+              obtain ⟨hc1, hc2⟩ := hc
+              constructor
+              · rw [← h1]
+                rcases hc1 with hc1 | hc1 | hc1 | hc1
+                · exact Or.inl hc1
+                · exact Or.inr (Or.inl hc1)
+                · exact absurd hc1 h0
+                · exact Or.inr (Or.inr ⟨hc1.2.1, hc1.2.2⟩)
+              · rw [← h2]
+                by_cases hko : rp.2.1 = 0xffff ∨ rp.2.1 = 0
+                · simp only [if_pos hko]; exact Or.inl trivial
+                · simp only [if_neg hko]; right
+                  rcases hc2 with hc2 | hc2 | hc2
+                  · exact absurd (Or.inl hc2) hko
+                  · exact absurd (Or.inr hc2) hko
+                  · omega
+            · simp at hpec
+          · simp only [if_neg hpec] at h
+            split at h <;> simp at h
+    · simp only [if_neg hp] at h
+      split at h <;> simp at h
+  refine ⟨hiv.1, hiv.2, ?_, ?_⟩
+  · intro cur hc
+    rw [Ne, clipInterval_zero_iff]
+    unfold resolveInterval defaultInterval
+    rcases hiv.1 with h1 | h1 | h1
+    · rw [if_pos h1]; exact hc
+    · rw [if_neg (by omega), if_pos h1]; omega
+    · rw [if_neg (by omega), if_neg (by omega)]; omega
+  · intro cur hc1 hc2
+    unfold resolveInterval defaultInterval
+    rcases hiv.1 with h1 | h1 | h1
+    · rw [if_pos h1, clipInterval_id hc1 (by omega)]; exact ⟨hc1, hc2⟩
+    · rw [if_neg (by omega), if_pos h1, clipInterval_id (by omega) (by omega)]; omega
+    · rw [if_neg (by omega), if_neg (by omega), clipInterval_id h1.1 (by omega)]; exact h1
+
+/-- the hypothesis is satisfiable: a request for 5 s with offset 1 s (100 × 10 ms), no parameter pairs, is served;
+and a request for interval 0 is not served -/
+example :
+    GF.req126993 { source := 30, name := 1, claimTimer := ⟨0⟩, endSource := 29 }
+      { prio := 3, pgn := 126208, src := 50, dst := 30, len := 11,
+        data := [0, 0x11, 0xf0, 0x01, 0x88, 0x13, 0, 0, 100, 0, 0] } = .serveHeartbeat 5000 1000 ∧
+    (match GF.req126993 { source := 30, name := 1, claimTimer := ⟨0⟩, endSource := 29 }
+        { prio := 3, pgn := 126208, src := 50, dst := 30, len := 11,
+          data := [0, 0x11, 0xf0, 0x01, 0, 0, 0, 0, 0, 0, 0] } with
+      | .serveHeartbeat _ _ => false
+      | _ => true) = true := by
+  refine ⟨by decide, by decide⟩
 
 /-! ## inactive nodes -/
 
